@@ -33,6 +33,7 @@ fn table(id: &str) -> Option<(RunFn, CheckFn)> {
         "C09" => Some((props::c09::run, props::c09::check_case)),
         "C11" => Some((props::c11::run, props::c11::check_case)),
         "C12" => Some((props::c12::run, props::c12::check_case)),
+        "C14" => Some((props::c14::run, props::c14::check_case)),
         "C15" => Some((props::c15::run, props::c15::check_case)),
         "C19" => Some((props::c19::run, props::c19::check_case)),
         "C20" => Some((props::c20::run, props::c20::check_case)),
